@@ -123,7 +123,7 @@ impl AnyScan for ParameterNumberMessageScanner {
         is_pn_controller(cn)
     }
     fn random_event(rng: &mut Rng, chans: u8, nvalues: u8, _ticks: &[u64]) -> Ev {
-        random_pn_event(rng, chans, nvalues, false, &[])
+        random_pn_event(rng, chans, nvalues, false, &crate::scan::TIME_SHIFTS)
     }
     fn alphabet(chans: &[u8], rich: bool, values: &[u8; 2]) -> Vec<Ev> {
         let mut a = pn_alphabet(chans, if rich { &values[..] } else { &values[1..] }, false, None);
